@@ -234,7 +234,7 @@ def render(toks, gaps):
     out = []
     for j, (w, _) in enumerate(toks):
         out.append(w)
-        if j < len(gaps):
+        if j < len(toks) - 1:
             out.append(gaps[j])
     return ''.join(out)
 
@@ -301,6 +301,11 @@ def malformed_variants(toks, operators):
     for j in range(n):
         if units[j] in special:
             yield 'quote@%d' % j, ' '.join(units[:j] + ['"%s"' % units[j]] + units[j + 1:])
+    for j in range(n):
+        if units[j] not in special:
+            # the name of a primitive must not be quoted either
+            first, _, rest = units[j].partition(' ')
+            yield 'quote primitive@%d' % j, ' '.join(units[:j] + [('"%s" %s' % (first, rest)).strip()] + units[j + 1:])
     for j in range(n - 1):
         if units[j] != units[j + 1]:
             yield 'swap@%d' % j, ' '.join(units[:j] + [units[j + 1], units[j]] + units[j + 2:])
